@@ -846,7 +846,9 @@ impl Case {
         // expected bytes, computed without the product's codec
         enum Expect {
             Malformed,
-            Unencodable,
+            /// `unchanged`: the text is already formatted, so files mode has nothing to write
+            /// (and then nothing to encode: exit 0 with the file left alone is correct)
+            Unencodable { unchanged: bool },
             Bytes { unchanged: bool, bytes: Vec<u8> },
         }
         let expect = match &rf.text {
@@ -864,7 +866,9 @@ impl Case {
                     return Verdict::HarnessError("pure reference produced no output".into());
                 };
                 match codec::ref_encode(rf.enc, &formatted) {
-                    Err(_) => Expect::Unencodable,
+                    Err(_) => Expect::Unencodable {
+                        unchanged: &formatted == text,
+                    },
                     Ok(body) => {
                         let mut bytes = bom.to_vec();
                         bytes.extend_from_slice(&body);
@@ -938,9 +942,11 @@ impl Case {
                     });
                 }
             }
-            (Expect::Unencodable, false) => {
+            (Expect::Unencodable { unchanged }, false) => {
                 stats.probe("c17_unencodable_result_judged");
-                if !exit_nonzero(&r) {
+                if *unchanged && self.mode == Mode::Files {
+                    stats.probe("c17_unencodable_but_already_formatted");
+                } else if !exit_nonzero(&r) {
                     out.push(Finding {
                         oracle: "c17.unencodable_result_exit_zero".into(),
                         detail: format!("{:?}", r.exit),
